@@ -46,6 +46,11 @@ RINGQ = {'test': 'TestVerifRingQ', 'comp': 'ringq', 'quick': {'VERIF_N': 100, 'V
 REASM = {'test': 'TestVerifReasm', 'comp': 'reasm', 'quick': {'VERIF_N': 300, 'VERIF_OPS': 300},
          'thorough': {'VERIF_N': 3000, 'VERIF_OPS': 400}, 'seeds': {'quick': 1, 'thorough': 8}}
 
+# wire codec: packet.marshal / packet.unmarshal through the chunk interface; its predicate messages are
+# tagged C12-/C13-/C03- and each property looks at its own
+CODEC = {'test': 'TestVerifCodec', 'comp': 'codec', 'quick': {'VERIF_N': 1500}, 'thorough': {'VERIF_N': 25000},
+         'seeds': {'quick': 1, 'thorough': 4}}
+
 PROPS = {
     'C05': {'jobs': [RQ]},
     'C16': {'jobs': [GENF, RQ, ASND]},
@@ -85,4 +90,11 @@ PROPS = {
         'with delta = largest len/w of a chunk actually popped from a stale selection (0 in atomic traces)',
         'not proved: a pop-count starvation bound for WFQ (only checked on traces, clause STARV); float64 rounding',
     ]},
+    'C12': {'jobs': [dict(CODEC, pviol_prefix=['C12-'])], 'assumptions': []},
+    'C13': {'jobs': [dict(CODEC, pviol_prefix=['C13-'])], 'assumptions': [
+        'the CRC is uninterpreted in the theorems; the driver recomputes every checksum with its own bitwise CRC32c, '
+        'which the harness compares with hash/crc32 on random strings']},
+    'C03': {'jobs': [dict(CODEC, pviol_prefix=['C03-'])], 'assumptions': [
+        'decoder part only (Props/C03dec.lean): panics are the explicit panic outcomes of the L0 model; '
+        'the harness runs every decode under recover() and a time box']},
 }
